@@ -226,5 +226,31 @@ BroadcastArrays(arrs) ==
       ta == [j \in 1..Len(dims) |-> prov(j).aattrs[pp(j)]]
   IN [i \in 1..Len(arrs) |-> Broadcast(arrs[i], dims, tk, tl, ta)]
 
+
+(* ---------- C07: reindexing ---------- *)
+FillId == 777       \* identifier of a numeric fill value
+\* fill: NaN or FillId; fkind: kind of the fill value ("f" for NaN); method: "none" | "left" | "right"
+Reindex(a, d, new, newkind, fill, fkind, raise, method) ==
+  LET L == a.labs[d]
+      pos == ReindexPos(L, new, method)
+      missing == \E j \in 1..Len(new) : pos[j] = 0
+  IN IF Len(L) = 0 /\ method # "none" /\ Len(new) > 0 THEN Err("unspecified")
+     ELSE IF raise /\ missing THEN Err("IndexError")
+     ELSE Ok(Mk(a.dims, [a.kinds EXCEPT ![d] = newkind], [a.labs EXCEPT ![d] = new], a.aattrs,
+                IF missing /\ fill = NaN /\ a.dtype \in {"i", "b"} THEN "f"
+                ELSE IF missing /\ a.dtype = "i" /\ fkind = "f" THEN "f" ELSE a.dtype,
+                a.attrs,
+                LAMBDA c : IF pos[c[d]] = 0 THEN fill ELSE At(a, [c EXCEPT ![d] = pos[c[d]]])))
+
+\* reindex_like: the same rule applied to every dimension of a shared with the template, in a's order
+RECURSIVE ReindexLikeFrom(_, _, _)
+ReindexLikeFrom(a, t, i) ==
+  IF i > NDim(a) THEN a
+  ELSE IF HasDim(t, a.dims[i])
+       THEN ReindexLikeFrom(Reindex(a, i, t.labs[DimPos(t, a.dims[i])], t.kinds[DimPos(t, a.dims[i])],
+                                    NaN, "f", FALSE, "none").val, t, i + 1)
+       ELSE ReindexLikeFrom(a, t, i + 1)
+ReindexLike(a, t) == ReindexLikeFrom(a, t, 1)
+
 IsPerm(p, n) == Len(p) = n /\ Rng(p) = 1..n
 =============================================================================
